@@ -507,6 +507,10 @@ template <class R> struct Counting
     R&  r; int n = 0;
     explicit Counting (R& rr) : r (rr) {}
     auto nextf (double a, double b) -> decltype (r.nextf (a, b)) { n++; return r.nextf (a, b); }
+    // the rest of the generator interface, should a sampler use it (none does today)
+    auto nextf () -> decltype (r.nextf ()) { n++; return r.nextf (); }
+    auto nexti () -> decltype (r.nexti ()) { n++; return r.nexti (); }
+    bool nextb () { n++; return r.nextb (); }
 };
 // Adversarial generator for the samplers' Rand parameter: legal values of nextf(-1,1) chosen by the plan
 // (the documented range is [rangeMin, rangeMax[ ; forced values are clamped into it by the generator of
@@ -533,6 +537,15 @@ template <class R> struct Adversarial
         }
         return r.nextf (a, b);
     }
+    // the rest of the generator interface, should a sampler use it (none does today): nextf() takes the forced
+    // value of nextf(-1,1) mapped back to [0,1[ (f = (v+1)/2 is exact), the integer draws pass through
+    auto nextf () -> decltype (r.nextf ())
+    {
+        typedef decltype (r.nextf ()) T;
+        return T ((double (nextf (-1.0, 1.0)) + 1.0) / 2.0);
+    }
+    auto nexti () -> decltype (r.nexti ()) { n++; return r.nexti (); }
+    bool nextb () { n++; return r.nextb (); }
 };
 
 template <class V> struct VecInfo;
